@@ -219,7 +219,7 @@ async def wire_case(net, hyg, plan):
         if tree.get("/outside") != b"must never be touched":
             viol.append({"key": "file-outside-any-base-modified", "msg": "/outside changed or vanished"})
         sess.peer.cut("fin")
-        await w.server.close()
+        await w.stop()
         return {"violations": viol, "monitors": mon, "sig": sig_of(transcript), "nontrivial": len(transcript) > 3,
                 "sample": {"transcript": transcript[:25]}}
     finally:
@@ -236,7 +236,7 @@ def run_case(case):
         return await wire_case(net, hyg, case)
     res, info = W.run(main, seed=case["seed"], net_kwargs=dict(mss=1460, latency=0.0005))
     if res is None:
-        return {"inconclusive": info.get("deadlock") or info.get("error"), "trace": info.get("trace", "")}
+        return W.failed(info)
     for v in res["violations"]:
         v["replay_case"] = case
     return res
